@@ -1,1 +1,201 @@
-/- C18 — property theorems (to be written) -/
+/-
+  C18 — format footprints add up from the tree exactly (fibertree/model/format.py).
+  Property theorems only; helper lemmas live in FtProofs/Lemmas/Format.lean.
+
+  Model: FtModel/Format.lean.  Heights: a fiber of the leaf rank has height 0, rank `i` of a
+  tensor with `D+1` ranks has height `D - i`; `lv h` is the filled spec + shape of that rank.
+-/
+import FtProofs.Lemmas.Format
+set_option linter.unusedSectionVars false
+set_option linter.unusedSimpArgs false
+set_option linter.unusedVariables false
+namespace Ft
+
+/-! ### a fiber -/
+
+/-- `_getFiberFootprint`: header plus (coordinate + payload bits) times the occupancy
+    (`len(fiber)`) if compressed, times the rank's shape if uncompressed. -/
+theorem fiber_fp (l : FpLevel) (occ : Nat) :
+    fpFiber l occ = l.fhbits + (l.cbits + l.pbits) *
+      (match l.format with | .C => occ | .U => l.shape) := by
+  rw [fpFiber_eq]; rfl
+
+example : fpFiber { format := .C, fhbits := 10, cbits := 3, pbits := 4, shape := 6 } 2 = 24 ∧
+          fpFiber { format := .U, fhbits := 10, cbits := 3, pbits := 4, shape := 6 } 2 = 52 := by decide
+
+/-! ### a rank, the tensor -/
+
+/-- `getRank`: the loop over `Rank.getFibers()` returns the rank header plus the footprints
+    of all the rank's fibers. -/
+theorem rank_fp (l : FpLevel) (fibers : List FpRankEntry) :
+    fpGetRank l fibers = l.rhbits + (fibers.map (fun e => fpFiber l e.2)).sum :=
+  foldl_add_eq_sum _ _ _
+
+/-- `getTensor`: the root's bits plus all ranks'. -/
+theorem tensor_fp (rootBits : Nat) (lv : Nat → FpLevel) (D : Nat) (ranks : List (List FpRankEntry)) :
+    fpGetTensor rootBits lv D ranks =
+      rootBits + ((List.range (D + 1)).map (fun i => fpGetRank (lv (D - i)) (ranks.getD i []))).sum :=
+  foldl_add_eq_sum _ _ _
+
+section
+variable {ν : Type} [DecidableEq ν]
+
+/-- The executable mirror check decides `FpMirror`. -/
+theorem fpMirrorB_iff (D : Nat) (root : Tree Int ν (D + 1)) (ranks : List (List FpRankEntry)) :
+    fpMirrorB D root ranks = true ↔ FpMirror D root ranks := by
+  simp only [fpMirrorB, FpMirror, List.all_eq_true, List.mem_range, List.isPerm_iff]
+  constructor
+  · intro h i hi; exact h i (by omega)
+  · intro h i hi; exact h i (by omega)
+
+/-- Under `Mirror` (C02: the fiber list of rank `i` is a permutation of the fibers stored
+    `i` levels below the root) the rank footprint equals the sum recomputed from the raw walk
+    of the tree.  PARTIAL: `Mirror` is an assumption here, it is C02's claim. -/
+theorem rank_fp_tree_partial (lv : Nat → FpLevel) (D : Nat) (root : Tree Int ν (D + 1))
+    (ranks : List (List FpRankEntry)) (hm : FpMirror D root ranks) (i : Nat) (hi : i ≤ D) :
+    fpGetRank (lv (D - i)) (ranks.getD i []) = fpRankSpec lv D root i := by
+  rw [rank_fp, fpRankSpec]
+  congr 1
+  exact ((hm i hi).map _).sum_nat
+
+/-- … and so does the tensor footprint.  PARTIAL: under `Mirror`. -/
+theorem tensor_fp_tree_partial (rootBits : Nat) (lv : Nat → FpLevel) (D : Nat)
+    (root : Tree Int ν (D + 1)) (ranks : List (List FpRankEntry)) (hm : FpMirror D root ranks) :
+    fpGetTensor rootBits lv D ranks = fpTensorSpec rootBits lv D root := by
+  rw [tensor_fp, fpTensorSpec]
+  congr 2
+  apply List.map_congr_left
+  intro i hi
+  exact rank_fp_tree_partial lv D root ranks hm i (by have := List.mem_range.1 hi; omega)
+
+/-- the raw walk by depth lists exactly the stored fibers `i` levels down (every stored
+    element counts, empty or not), each with its `len` -/
+theorem rank_fibers_iff (d : Nat) (f : Tree Int ν (d + 1)) (i : Nat) (e : FpRankEntry) :
+    e ∈ fpFibersAt d f i ↔ ∃ p, e.1 = some p ∧ p.length = i ∧ FpStored d f p e.2 :=
+  fpFibersAt_iff d f i e
+
+/-- non-vacuity: a 2-rank tensor whose rank lists (in another order) mirror the tree -/
+def exTree : Tree Int Int 2 := (show List (Int × Tree Int Int 1) from
+  [(0, (show List (Int × Int) from [(1, 5), (3, 0)])), (2, (show List (Int × Int) from [])),
+   (3, (show List (Int × Int) from [(0, 0)]))])
+
+def exRanks : List (List FpRankEntry) :=
+  [[(some [], 3)], [(some [3], 1), (some [0], 2), (some [2], 0)]]
+
+def exLv (fm fk : FmtKind) : Nat → FpLevel
+  | 1 => { format := fm, rhbits := 1000, fhbits := 100, cbits := 1, pbits := 2, shape := 4 }
+  | _ => { format := fk, rhbits := 0, fhbits := 10, cbits := 3, pbits := 4, shape := 4 }
+
+example : FpMirror 1 exTree exRanks := (fpMirrorB_iff 1 exTree exRanks).1 (by decide)
+example : fpGetTensor 5 (exLv .U .C) 1 exRanks = 1168 := by decide
+
+/-! ### a sub-tree -/
+
+/-- The stack loop of `getSubTree`, started on one fiber with as much fuel as there are
+    fibers to visit, returns the sum of the footprints of the enumerated reachable fibers. -/
+theorem subtree_walk (dflt : ν) (lv : Nat → FpLevel) (d : Nat) (f : Tree Int ν (d + 1)) :
+    fpWalk dflt lv (fpSize dflt lv d f) [⟨d, f⟩] 0 = fpSubTreeSpec dflt lv d f := by
+  have := fpWalk_spec dflt lv (fpSize dflt lv d f) [⟨d, f⟩] 0 (by simp [fpItemSize])
+  simpa [fpItemSpec] using this
+
+/-- more fuel changes nothing (the loop has stopped) -/
+theorem subtree_walk_fuel (dflt : ν) (lv : Nat → FpLevel) (d : Nat) (f : Tree Int ν (d + 1))
+    (fuel : Nat) (h : fpSize dflt lv d f ≤ fuel) :
+    fpWalk dflt lv fuel [⟨d, f⟩] 0 = fpSubTreeSpec dflt lv d f := by
+  have := fpWalk_spec dflt lv fuel [⟨d, f⟩] 0 (by simpa [fpItemSize] using h)
+  simpa [fpItemSpec] using this
+
+/-- `getSubTree(*coords)` for every point prefix: the sum over the enumerated fibers
+    reachable below the addressed fiber (an absent point addresses an empty fiber); for a
+    full-length point the leaf rank's element bits. -/
+theorem subtree_fp (dflt : ν) (lv : Nat → FpLevel) (D : Nat) (root : Tree Int ν (D + 1))
+    (coords : List Int) :
+    fpGetSubTree dflt lv D root coords = fpSubTreeAtSpec dflt lv D root coords := by
+  unfold fpGetSubTree fpSubTreeAtSpec
+  split
+  · rfl
+  · cases fpDescend D root coords with
+    | none => rfl
+    | some it =>
+      obtain ⟨h, f⟩ := it
+      simp only [Option.map_some, subtree_walk]
+
+/-- The enumeration is exact: it lists a (path, height, len) iff that fiber is reachable —
+    through the stored non-empty elements of a compressed rank, through every coordinate
+    `0 ≤ c < shape` of an uncompressed one, an absent child counting as an empty fiber. -/
+theorem subtree_reach_iff (dflt : ν) (lv : Nat → FpLevel) (d : Nat) (f : Tree Int ν (d + 1))
+    (p : List Int) (h o : Nat) :
+    (p, h, o) ∈ fpReach dflt lv d f ↔ FpReachable dflt lv d f p h o :=
+  fpReach_iff dflt lv d f p h o
+
+/-- … and every reachable fiber is listed once (coordinate paths are distinct) when the
+    fibers are sorted (C01's order clause). -/
+theorem subtree_reach_nodup (dflt : ν) (lv : Nat → FpLevel) (d : Nat) (f : Tree Int ν (d + 1))
+    (hw : WF (d + 1) f) : ((fpReach dflt lv d f).map (·.1)).Nodup :=
+  fpReach_nodup dflt lv d f hw
+
+example : WF 2 exTree := (fp_wfB_iff 2 exTree).1 (by decide)
+
+/-- non-vacuity of the reachability clauses on `exTree` (children 0 ↦ [1↦5, 3↦0], 2 ↦ [], 3 ↦ [0↦0]):
+    under an uncompressed top rank the absent coordinate 1 is reached as an empty fiber and
+    coordinate 4 (= shape) is not; under a compressed top rank the stored but empty children 2, 3
+    are not reached while child 0 is. -/
+example : FpReachable (0 : Int) (exLv .U .C) 1 exTree [1] 0 0 ∧
+          ¬ FpReachable (0 : Int) (exLv .U .C) 1 exTree [4] 0 0 ∧
+          FpReachable (0 : Int) (exLv .C .C) 1 exTree [0] 0 2 ∧
+          ¬ FpReachable (0 : Int) (exLv .C .C) 1 exTree [2] 0 0 ∧
+          ¬ FpReachable (0 : Int) (exLv .C .C) 1 exTree [3] 0 1 := by
+  refine ⟨?_, ?_, ?_, ?_, ?_⟩
+  · exact (subtree_reach_iff _ _ _ _ _ _ _).1 (by decide)
+  · exact fun h => absurd ((subtree_reach_iff _ _ _ _ _ _ _).2 h) (by decide)
+  · exact (subtree_reach_iff _ _ _ _ _ _ _).1 (by decide)
+  · exact fun h => absurd ((subtree_reach_iff _ _ _ _ _ _ _).2 h) (by decide)
+  · exact fun h => absurd ((subtree_reach_iff _ _ _ _ _ _ _).2 h) (by decide)
+
+example : fpGetSubTree (0 : Int) (exLv .C .C) 1 exTree [] = some 133 ∧
+          fpGetSubTree (0 : Int) (exLv .U .U) 1 exTree [] = some 264 ∧
+          fpGetSubTree (0 : Int) (exLv .U .C) 1 exTree [1] = some 10 ∧
+          fpGetSubTree (0 : Int) (exLv .U .C) 1 exTree [0, 1] = some 7 := by decide
+
+end
+
+/-! ### defaults of the specification -/
+
+/-- `_checkFillSpec` on a rank entry: every field keeps the given value and a missing field
+    gets zero bits / "C" / "contiguous". -/
+theorem spec_defaults_rank {e e' : SpecDict} (h : checkFillRank e = some e') (k : String) :
+    lookup e' k = match lookup e k with
+      | some v => some v
+      | none => specRankDefault k :=
+  checkFillRank_lookup h k
+
+/-- the same for the `"root"` entry (`hbits`, `pbits` default to zero) -/
+theorem spec_defaults_root {e e' : SpecDict} (h : checkFillRoot e = some e') (k : String) :
+    lookup e' k = match lookup e k with
+      | some v => some v
+      | none => specRootDefault k :=
+  checkFillRoot_lookup h k
+
+/-- the executable form used on the implementation's filled dictionaries -/
+theorem spec_defaults_sound {e e' : SpecDict} (h : checkFillRank e = some e') :
+    specFilledB specRankDefault specRankKeys e e' = true := by
+  simp only [specFilledB, List.all_eq_true, beq_iff_eq]
+  intro k _
+  exact checkFillRank_lookup h k
+
+/-- a wholly missing spec is accepted and means: zero bits everywhere, compressed, contiguous -/
+theorem spec_defaults_missing :
+    checkFillSpec none [none] =
+      some ([("hbits", .int 0), ("pbits", .int 0)],
+            [[("rhbits", .int 0), ("fhbits", .int 0), ("cbits", .int 0), ("pbits", .int 0),
+              ("format", .str "C"), ("layout", .str "contiguous")]]) ∧
+    levelOf [("rhbits", .int 0), ("fhbits", .int 0), ("cbits", .int 0), ("pbits", .int 0),
+              ("format", .str "C"), ("layout", .str "contiguous")] 7 =
+      { format := .C, rhbits := 0, fhbits := 0, cbits := 0, pbits := 0, shape := 7 } := by
+  constructor <;> decide
+
+example : checkFillRank [("format", .str "U"), ("cbits", .int 3)] =
+    some [("format", .str "U"), ("cbits", .int 3), ("rhbits", .int 0), ("fhbits", .int 0),
+          ("pbits", .int 0), ("layout", .str "contiguous")] := by decide
+
+end Ft
